@@ -153,6 +153,8 @@ def worker_main(args):
             state["skipped"] += 1
             return
         ctx.cases += 1
+        with open(args.out + ".last", "w") as fd:  # survives a hard crash of this process
+            json.dump(case, fd)
         unknown, _ = run_filtered(mod, case, ctx)
         for o in unknown:
             c = o.get("case") or case
@@ -284,6 +286,9 @@ def driver_main(args):
     seed = args.seed
     t0 = time.time()
     env = env_for_children()
+    if getattr(mod, "NEEDS_ENGINES", False):
+        from . import engines
+        env["VERIF_ENGINES"] = ",".join(engines.usable())
     tmp = tempfile.mkdtemp(prefix=f"verif-{pid}-")
     nshards = getattr(mod, "SHARDS", {}).get(tier, NSHARDS) if isinstance(
         getattr(mod, "SHARDS", None), dict) else NSHARDS
@@ -301,8 +306,15 @@ def driver_main(args):
         logs.append(log)
     harness_errors = []
     results = []
+    crashed = []
     for mode, k, p, out, logp in procs:
         rc = p.wait()
+        if rc < 0 and os.path.exists(out + ".last"):
+            # the interpreter died (signal): the last case becomes a crash candidate
+            with open(out + ".last") as fd:
+                crashed.append({"bucket": f"process-crash:signal{-rc}", "case": json.load(fd),
+                                "detail": {"worker": f"{mode}-{k}", "signal": -rc}})
+            continue
         if rc != 0 or not os.path.exists(out):
             with open(logp) as fd:
                 tail = fd.read()[-3000:]
@@ -321,6 +333,8 @@ def driver_main(args):
     # aggregate
     from . import findings, gen
     cand = {}
+    for c in crashed:
+        cand.setdefault(c["bucket"], c)
     for r in results:
         for c in r.get("candidates", []):
             cur = cand.get(c["bucket"])
@@ -358,7 +372,7 @@ def driver_main(args):
         # confirm in a fresh interpreter
         cp = subprocess.run([PY, "-m", "vlib.core", "replay", pid, "--replay", path],
                             cwd=ROOT, env=env, capture_output=True, text=True)
-        if cp.returncode == 1:
+        if cp.returncode == 1 or (cp.returncode < 0 and bucket.startswith("process-crash")):
             violations.append({"bucket": bucket, "replay": path, "detail": c.get("detail")})
         else:
             unreproduced.append({"bucket": bucket, "replay": path, "rc": cp.returncode,
